@@ -276,12 +276,12 @@ def sym_set_type(vc):
             expect_no_raise_or_same(vc, fk, paths)
 
 
-def sym_printer(vc):
+def sym_printer(vc, kinds=('list', 'str', 'int')):
     """printer(resources=..).func(rows): unselected -> `yield from rows` and nothing printed"""
     import z3
     from pyvc.api import real_function, check, cover, yields_of, ufunc, Opaque, Tree
     fk = vc.under_contract(P + 'printer.py', ['printer', 'func'])
-    for kind in ('list', 'str', 'int'):
+    for kind in kinds:
         def thunk(it, kind=kind):
             pr = real_function(it, 'dataflows.processors.printer', 'printer')
             sel, want = selector(it, kind)
